@@ -699,7 +699,14 @@ class Oracle:
                     c = 'restore'                # later changes are equal in effect
                 elif undone is None and cur is None:
                     c = 'grey'                   # absent == absent through different revisions
-                elif undone is None or cur is None or before is None:
+                elif undone is None or cur is None:
+                    c = 'refuse'
+                elif undone.startswith('bl') and cur.startswith('bl'):
+                    # a later, different blob content: the records are byte-equal (a Blob has no pickled
+                    # state), so the storage copies the pointer and the blob file of the revision before
+                    # T; reported to the coordinator, accepted either way here and counted
+                    c = 'grey-blob'
+                elif before is None:
                     c = 'refuse'
                 elif tok_is_rc(undone) and tok_is_rc(cur) and tok_is_rc(before):
                     m = rc_resolve(tok_val(undone), tok_val(cur), tok_val(before))
@@ -710,7 +717,7 @@ class Oracle:
                 classes[oid] = c if c != 'merge' else 'merge:01%04x' % m
                 if c == 'refuse':
                     outcome = 'fail'
-                elif c == 'grey':
+                elif c in ('grey', 'grey-blob'):
                     if outcome == 'ok':
                         outcome = 'either'
                     newW[oid] = before
@@ -1046,6 +1053,225 @@ def gen_cases(rng, n_hist, thorough):
     return cases
 
 
+
+# ------------------------------------------------------------------ blob-carrying histories
+# The data of a Blob lives in a file next to its record; undo must carry it along (C06 with C13):
+# histories over BlobStorage(FileStorage) ('wrap') and FileStorage(blob_dir=...) ('native') through
+# DB/Connection, undo of modifying and of creating transactions, undo of those undos (redo), reopen.
+# Judged by the same list-of-transactions oracle (blob content is the state token of a blob object);
+# observation: what two connections and a reopened database read from every blob reachable from the root.
+def blob_payload(v):
+    return b'payload-%d' % v
+
+
+def run_blob_case(case, tmp):
+    from ZODB.blob import Blob, BlobStorage
+    d = os.path.join(tmp, 'case')
+    shutil.rmtree(d, ignore_errors=True)
+    os.makedirs(d)
+    path = os.path.join(d, 'Data.fs')
+    toks = Tokens()
+    orc = Oracle()
+    problems, events = [], []
+    stats = dict(nontrivial=False, hist={})
+    labels = {}
+    blob_oids = set()
+    S = {}
+
+    def cnt(k):
+        stats['hist'][k] = stats['hist'].get(k, 0) + 1
+
+    def open_():
+        if case.get('variant') == 'native':
+            S['st'] = FileStorage(path, blob_dir=os.path.join(d, 'blobs'))
+        else:
+            S['st'] = BlobStorage(os.path.join(d, 'blobs'), FileStorage(path))
+        S['db'] = ZODB.DB(S['st'])
+        S['tm1'], S['tm2'], S['tmu'] = (transaction.TransactionManager() for _ in range(3))
+        S['c1'] = S['db'].open(S['tm1'])
+        S['c2'] = S['db'].open(S['tm2'])
+
+    def close_():
+        for k in ('tm1', 'tm2', 'tmu'):
+            S[k].abort()
+        S['db'].close()
+
+    def read_all(conn, tm):
+        tm.abort()
+        tm.begin()
+        out = {}
+        root = conn.root()
+        for name in sorted(root.keys()):
+            try:
+                with root[name].open('r') as f:
+                    out[name] = [root[name]._p_oid.hex(), f.read().decode()]
+            except Exception as e:
+                out[name] = [root[name]._p_oid.hex(), 'ERR:' + type(e).__name__]
+        tm.abort()
+        return out
+
+    def expected():
+        """what the history says: the blobs the root reaches, with their content"""
+        cur = {}
+        for t in orc.txns:
+            cur.update(t['writes'])
+        rt = cur.get(hx(0))
+        if rt is None:
+            return None
+        out = {}
+        for name, oid in data_view(toks.rev[rt])[1]:
+            tk = cur.get(oid)
+            out[name] = [oid, 'ABSENT' if tk is None else blob_payload(int(tk[2:], 16)).decode()]
+        return out
+
+    def check(where, ev):
+        exp = expected()
+        ev['expected'] = exp
+        if exp is None:
+            return
+        for who, conn, tm in (('the committing connection', S['c1'], S['tm1']),
+                              ('a second connection', S['c2'], S['tm2'])):
+            got = read_all(conn, tm)
+            ev.setdefault('reads', {})[who] = got
+            if got != exp:
+                unreadable = any(v[1].startswith('ERR:') for v in got.values())
+                problems.append(('C06:blob-unreadable-after-undo' if unreadable else 'C06:blob-state-after-undo',
+                                 '%s: %s reads the blobs as %s, the history says %s' % (where, who, got, exp)))
+                return
+
+    ctx = clock.scripted()
+    ctx.__enter__()
+    try:
+        open_()
+        log = parse_file(path, toks)
+        orc.commit(log[-1][0], [(r[0], r[4]) for r in log[-1][2]])
+        for op in case['ops']:
+            if problems:
+                break
+            ev = dict(op=op, kind=op[0], res='ok')
+            events.append(ev)
+            cnt('op:blob-' + op[0])
+            if op[0] == 'w':
+                _, label, sets = op
+                if not sets:
+                    ev['kind'] = 'skip'
+                    continue
+                S['tm1'].abort()
+                S['tm1'].begin()
+                root = S['c1'].root()
+                for name in sorted(sets):
+                    if name in root:
+                        with root[name].open('w') as f:
+                            f.write(blob_payload(sets[name]))
+                    else:
+                        root[name] = Blob(blob_payload(sets[name]))
+                S['tm1'].commit()
+                tid = S['st'].lastTransaction()
+                labels[label] = tid
+                S['tm1'].begin()
+                name_of = {S['c1'].root()[n]._p_oid.hex(): n for n in sets}
+                S['tm1'].abort()
+                blob_oids.update(name_of)
+                log = parse_file(path, toks)
+                recs = [(r[0], 'bl%04x' % sets[name_of[r[0]]] if r[0] in name_of else r[4])
+                        for r in log[-1][2]]
+                orc.commit(tid.hex(), recs)
+            elif op[0] == 'u':
+                tids = [labels[i] for i in op[2] if i in labels]
+                if not tids:
+                    ev['kind'] = 'skip'
+                    continue
+                ev['ids'] = [t.hex() for t in tids]
+                outcome, W, DT, classes, nontriv = orc.predict(ev['ids'])
+                stats['nontrivial'] = stats['nontrivial'] or nontriv
+                for c in classes.values():
+                    cnt('blob-verdict:' + c.split(':')[0])
+                tm = S['tmu']
+                tm.begin()
+                S['db'].undoMultiple([base64.encodebytes(t).rstrip(b'\n') for t in tids], tm.get())
+                try:
+                    tm.commit()
+                    res = 'ok'
+                except POSException.UndoError:
+                    res = 'UndoError'
+                    tm.abort()
+                except Exception as e:
+                    res = 'Other:' + type(e).__name__
+                    tm.abort()
+                ev['res'] = res
+                cnt('blob-undo:real-%s/predicted-%s' % (res, outcome))
+                if res == 'Other:POSKeyError' and outcome != 'fail' and case.get('variant') != 'native':
+                    problems.append(('C06:blobstorage-undo-poskeyerror', 'BlobStorage: undo of %s raised '
+                                     'POSKeyError although every object is restorable (%s)' % (ev['ids'], classes)))
+                elif res not in ('ok', 'UndoError'):
+                    problems.append(('C06:undo-raises-other', 'undo of %s raised %s' % (ev['ids'], res)))
+                elif outcome == 'fail' and res == 'ok':
+                    problems.append(('C06:unmergeable-undo-accepted', 'undo of %s succeeded although %s'
+                                     % (ev['ids'], classes)))
+                elif outcome == 'ok' and res != 'ok':
+                    problems.append(('C06:undo-refused', 'undo of %s failed although %s' % (ev['ids'], classes)))
+                if res == 'ok':
+                    labels[op[1]] = S['st'].lastTransaction()
+                    orc.txns.append(dict(tid=labels[op[1]].hex(), packed=False, writes=dict(W), undo=True))
+            elif op[0] == 'reopen':
+                close_()
+                open_()
+            if not problems:
+                check('after %r' % (op,), ev)
+        if not problems:
+            close_()
+            open_()
+            check('after close and reopen', dict())
+        close_()
+    except InfraError:
+        raise
+    except Exception as e:
+        problems.append(('C06:exception-in-history', 'blob history broke after %d ops: %s: %s'
+                         % (len(events), type(e).__name__, e)))
+    finally:
+        ctx.__exit__(None, None, None)
+    return dict(lines=[], events=events, problems=problems, stats=stats)
+
+
+def gen_blob_cases(rng, n):
+    cases = []
+    for h in range(n):
+        variant = 'wrap' if h % 3 != 2 else 'native'
+        names = ['b0', 'b1']
+        hist, created = [], {}
+        for i in range(rng.choice([1, 2, 2, 3, 4])):
+            name = rng.choice(names) if created else 'b0'
+            sets = {name: rng.randrange(1, 9)}
+            if rng.random() < 0.2:
+                sets[rng.choice(names)] = rng.randrange(1, 9)
+            for nm in sets:
+                created.setdefault(nm, 't%d' % i)
+            hist.append(['w', 't%d' % i, sets])
+        labels = [op[1] for op in hist]
+        tails = []
+        for lab in labels:                      # each transaction: undo, undo of the undo, redo ...
+            t = [['u', 'u0', [lab]], ['u', 'u1', ['u0']]]
+            r = rng.random()
+            if r < 0.4:
+                t.append(['u', 'u2', ['u1']])
+                if rng.random() < 0.5:
+                    t.append(['u', 'u3', ['u2']])
+            elif r < 0.6:
+                t.insert(1, ['reopen'])
+            elif r < 0.8:
+                t.append(['w', 'x0', {rng.choice(names): rng.randrange(1, 9)}])
+                t.append(['u', 'u2', [rng.choice(['x0', 'u1', lab])]])
+            tails.append(t)
+        # peel the history off from the end, then put it back
+        peel = [['u', 'p%d' % i, [lab]] for i, lab in enumerate(reversed(labels))]
+        back = [['u', 'q%d' % i, ['p%d' % (len(labels) - 1 - i)]] for i in range(len(labels))]
+        tails.append(peel + back)
+        tails.append([['u', 'm0', list(reversed(labels))], ['u', 'm1', ['m0']]])
+        for t in tails:
+            cases.append(dict(mode='blob', variant=variant, ops=hist + t))
+    return cases
+
+
 # ------------------------------------------------------------------ running and judging
 def run_real(case, tmp):
     r = Real(case, tmp)
@@ -1058,11 +1284,13 @@ def is_nontrivial(stats):
 
 
 def canonical(case):
-    return [case['mode'], case['ops']]
+    return [case['mode'], case.get('variant'), case['ops']]
 
 
 def judge_real_only(case, tmp):
     """run one case on the real code and let the oracle judge it -> plain (picklable) data"""
+    if case['mode'] == 'blob':
+        return run_blob_case(case, tmp)
     r = Real(case, tmp)
     crashed = None
     try:
@@ -1117,6 +1345,7 @@ def main(argv=None):
         cases = [c['case'] if 'case' in c and 'mode' not in c else c]
     else:
         cases = load_corpus() + gen_cases(ck.rng, 80 if not ck.thorough else 1000, ck.thorough)
+        cases += gen_blob_cases(ck.rng, 12 if not ck.thorough else 150)
     # 1. real code + direct oracle (worker processes; all randomness was drawn above)
     import multiprocessing
     nproc = max(1, min(16, (os.cpu_count() or 2) - 1, len(cases)))
@@ -1146,28 +1375,27 @@ def main(argv=None):
         ck.count('mode:' + case['mode'])
         nontriv = is_nontrivial(stats)
         ck.case(canonical(case), nontriv,
-                sample=dict(case=case, undo_outcomes=[(e['ids'], e['res']) for e in events
+                sample=dict(case=case, undo_outcomes=[(e.get('ids'), e['res']) for e in events
                                                       if e['kind'] == 'u']) if nontriv else None)
         if problems and len(ck.violations) + len(ck.known_hit) >= 4:
             ck.count('violating-cases-not-shrunk')          # enough replayable witnesses; keep the run short
         elif problems:
             sig = problems[0][0]
 
-            def fails(sub_ops, sig=sig, mode=case['mode']):
+            def fails(sub_ops, sig=sig, case=case):
                 try:
-                    pr = judge_real_only(dict(mode=mode, ops=sub_ops), ck.tmp)['problems']
+                    pr = judge_real_only(dict(case, ops=sub_ops), ck.tmp)['problems']
                 except Exception:
                     return False
                 return any(p[0] == sig for p in pr)
             small_ops = ddmin(case['ops'], fails, max_tests=150)
-            small = dict(mode=case['mode'], ops=small_ops)
+            small = dict(case, ops=small_ops)
             try:
                 pr2 = judge_real_only(small, ck.tmp)['problems']
                 pr2 = [p for p in pr2 if p[0] == sig] or problems
             except Exception:
                 small, pr2 = case, problems
-            ck.violation(sig, pr2[0][1], dict(mode=small['mode'], ops=small['ops'],
-                                             problems=[p[1] for p in pr2[:5]]))
+            ck.violation(sig, pr2[0][1], dict(small, problems=[p[1] for p in pr2[:5]]))
         else:
             for (op, exp, tag, what), got in zip(rl, mo):
                 if exp != got:
@@ -1180,7 +1408,8 @@ def main(argv=None):
              'rewrites, double stores) on the real FileStorage at storage level and through '
              'DB/Connection, each followed by undo programs: every transaction as single undo target, '
              'pairs/triples in both orders, undo of undo, redo, random tails with writes, pack (gc on/off) '
-             'and close/reopen (with and without index).  non-trivial = an executed undo names a '
+             'and close/reopen (with and without index); plus Blob histories over BlobStorage(FileStorage) and '
+             'FileStorage(blob_dir) with undo/redo chains.  non-trivial = an executed undo names a '
              'transaction that is not the newest, or creates an object, or is itself an undo; distinct '
              'by hash of (mode, op list)',
         assumptions=[
